@@ -30,11 +30,23 @@ type c05 struct{}
 func (c05) ID() string { return "C05" }
 
 var c05Invalid = []string{"novalue", "a:1", "a:1|", "a:1|x", "a:abc|c", ":1|c", "a:1|c|@", "a:1|c|@x", "a:NaN|g", "_e{1,2}:a|b", "_e{a}", "_x",
-	"a|b:c", "a:1|m", "_e{3,3}:abc|de", "::|", "a:1|c|#t|@", "|", "a:|c", "_e{1,1}:a|b|p:urgent", "_e{1,1}:a|b|d:x"}
+	"a|b:c", "a:1|m", "_e{3,3}:abc|de", "::|", "a:1|c|#t|@", "|", "a:|c", "_e{1,1}:a|b|p:urgent", "_e{1,1}:a|b|d:x",
+	"a:-|c", "a:-|g", "a:+|ms", "a:.|c", "a:1e|c"}
 var c05Names = []string{"plain", "a/b", "sp ace", "t\tab", "x$y%z", "dot.name-dash_us", "UPPER/lower", "a//b  c", "né", "p(q)"}
 var c05Tags = []string{"env:prod", "host:web1", "host:web2", "k", "host:", "region:us", "a:b:c", "x/y"}
 
+// genC05Line: one line; now and then with the carriage return a CRLF-minded sender leaves at its end (a byte like any
+// other to the grammar: whatever it does to the line alone it must do to the line inside a datagram).
 func genC05Line(e *Env) string {
+	l := genC05LineBody(e)
+	if e.Chance(1, 12) {
+		e.Probe("line-ends-in-carriage-return")
+		return l + "\r"
+	}
+	return l
+}
+
+func genC05LineBody(e *Env) string {
 	switch e.Weighted("line-kind", []int{8, 3, 2, 1, 2}) {
 	case 0: // valid metric line, maybe needing normalisation, maybe with host tags
 		name := c05Names[e.Draw(len(c05Names))]
@@ -167,7 +179,7 @@ func eventString(e gostatsd.Event) string {
 }
 
 func (c05) Run(e *Env) {
-	e.ProbeDecl("normalised-name", "bad-line", "event-line", "empty-line", "host-tag-under-ignore-host", "two-host-tags", "same-gauge-twice", "scribbled", "overlap-delivery-while-parser-parked", "no-trailing-newline", "multi-parser", "burst-read-as-one-batch", "datagram-near-64k", "ipv6-sender")
+	e.ProbeDecl("normalised-name", "bad-line", "event-line", "empty-line", "host-tag-under-ignore-host", "two-host-tags", "same-gauge-twice", "scribbled", "overlap-delivery-while-parser-parked", "no-trailing-newline", "multi-parser", "burst-read-as-one-batch", "datagram-near-64k", "ipv6-sender", "line-ends-in-carriage-return")
 	nParsers := e.Range(1, 4)
 	nReaders := e.Range(1, 2)
 	ignoreHost := e.Bool()
